@@ -222,7 +222,14 @@ func (in *inst) walk(n ast.Node) {
 		case *ast.BlockStmt:
 			if !in.done[x] {
 				in.done[x] = true
-				x.List = in.list(x.List, "")
+				// also at the start of if/else bodies and bare blocks: the gap
+				// between a condition and the first statement it guards is the
+				// classic check-then-act window
+				kind := ""
+				if in.every && len(x.List) > 0 {
+					kind = "block"
+				}
+				x.List = in.list(x.List, kind)
 			}
 		}
 		return true
